@@ -1,5 +1,6 @@
 import PandoraModel.Properties.C10
 import PandoraModel.Properties.C10C12
+import PandoraModel.Properties.C10Kernels
 open Pandora.C10 Pandora.Filter Pandora.Blocks
 #print axioms blocked_eq_direct
 #print axioms sorted_isKth
@@ -45,3 +46,9 @@ open Pandora.C10 Pandora.Filter Pandora.Blocks
 #print axioms Pandora.C10C12.intervals_widen
 #print axioms Pandora.C10C12.intervals_twice_flags
 #print axioms Pandora.C10C12.flagged_unchanged_example
+-- T15: the numpy glue of the median filter regenerated from the source (translator/pyarr.py) = the model
+#print axioms Pandora.C10Kernels.blockedSt_eq
+#print axioms Pandora.C10Kernels.medianFilter_generated
+#print axioms Pandora.C10Kernels.filterDisparityMedian_generated
+#print axioms Pandora.C10Kernels.filterDisparityMedian_spec
+#print axioms Pandora.C10Kernels.medianFilter_generated_spec
